@@ -163,6 +163,16 @@ def run_verus_unit(uname, ucfg, tier, scratch):
                     or "verus reports function not verified"
                 rec["tags"] = tags
                 rec["detail"] = "\n".join(f["rendered"] for f in fails)[:6000]
+                # Termination is not part of any listed property: if the only thing Verus cannot
+                # show is a decreases obligation (e.g. after a refactor that recurses on a rebuilt
+                # term), the function is undecided, not in violation.
+                # The same holds for a requires clause tagged `@ob:premise.*` in the template: it
+                # restates the property's premise for recursive calls, it is not a requirement of
+                # the code.
+                if fails and all("termination" in f["message"] or (f["tag"] or "").startswith("premise.") for f in fails):
+                    rec["status"] = "undecided"
+                    out["status"] = "undecided" if out["status"] == "ok" else out["status"]
+                    out["reason"] = out["reason"] or f"only termination (decreases) / property-premise obligations of {suffix} fail: proof obligation of the machinery, not a property violation"
         obs.append(rec)
     # supporting lemmas/spec fns (owned by /verif) must verify; otherwise undecided
     support_failed = [k for k, v in fnres.items() if not v["success"] and not k.endswith("verif_canary")
